@@ -18,9 +18,9 @@ AllOpt == {"$ORIGIN-rel", "rdname-at", "rdname-rel-svcb", "str-quoted-in-paren",
 
 \* ---- inheritance scope
 I_Records == {
-    Rec(Apex, "IN", "NS", "300", <<<<"ns", "example", "com">>>>),
-    Rec(<<"ns", "example", "com">>, "IN", "A", "300", <<<<"192.0.2.1">>>>),
-    Rec(<<"ns", "example", "com">>, "IN", "TXT", "60", <<<<"x">>>>),
+    Rec(Apex, "IN", "NS", "300", <<<<"ns-", "example", "com">>>>),
+    Rec(<<"ns-", "example", "com">>, "IN", "A", "300", <<<<"192.0.2.1">>>>),
+    Rec(<<"ns-", "example", "com">>, "CH", "TXT", "60", <<<<"x">>>>),
     Rec(<<"a.b", "sub", "example", "com">>, "CH", "TXT", "60", <<<<"a b">>>>) }
 I_Origins == {<<"sub", "example", "com">>, <<>>}
 I_TtlDirs == {"60"}
